@@ -4,6 +4,7 @@ import (
 	"fmt"
 	"go/token"
 	"go/types"
+	"os"
 	"sort"
 	"strings"
 
@@ -11,80 +12,284 @@ import (
 )
 
 // C08 — no interference through package-level shared state.
+//
+// Every construct is resolved by ROLE (types, dataflow, exported anchors):
+//   - pooled buffers: results of sync.Pool.Get, wherever the call lives
+//     (directly in the holder, or behind hand-over helpers); the release is
+//     sync.Pool.Put, wherever it lives (direct, deferred closure, helper).
+//   - guarded package-level state: a package-level variable that is mutated
+//     after initialisation; its guard is whichever package-level
+//     sync.Mutex/RWMutex of the same package is held at every access.
+//   - zeroing: a must-dataflow fact ("every byte of the recycled slice was
+//     set to zero") established by clear(), counted loops in any form, or
+//     same-module helpers that establish it for their parameter.
 
 func init() { register("C08", checkC08) }
 
-var c08ReadOnly = []string{"bytes.Clone", "slices.Clone", "strings.Clone", "errors.Is", "errors.As", "encoding/json.Unmarshal", "encoding/json.Marshal"}
+// c08ReadOnly: library functions reviewed as neither writing, retaining nor
+// returning an alias of their byte-slice arguments (documented behaviour).
+var c08ReadOnly = []string{
+	"bytes.Clone", "slices.Clone", "strings.Clone", "errors.Is", "errors.As", "encoding/json.Unmarshal", "encoding/json.Marshal",
+	"bytes.IndexAny", "bytes.IndexRune", "bytes.IndexFunc", "bytes.LastIndex", "bytes.LastIndexByte", "bytes.Count", "bytes.ContainsAny", "bytes.ContainsRune",
+	"bytes.EqualFold", "bytes.ToUpper", "bytes.ToLower", "bytes.Join",
+	"slices.Index", "slices.Contains", "slices.Equal", "slices.Compare", "slices.IndexFunc",
+	"encoding/binary.bigEndian.Uint16", "encoding/binary.littleEndian.Uint16", "encoding/binary.littleEndian.Uint32", "encoding/binary.littleEndian.Uint64",
+	"unicode/utf8.Valid", "unicode/utf8.DecodeRune", "fmt.Sprint", "fmt.Fprintf",
+}
 
 func checkC08(c *Ctx) {
 	r, p := c.R, c.P
-	r.Explanation = "Decides structural necessary conditions of C08: (B1) pooled-buffer escape — in the whole module no value that may share memory with a buffer obtained from a sync.Pool (BufPool, the byte-slice pool) is returned, stored into a field/global/heap object, sent on a channel or handed to a goroutine by the function that holds it (a summary-based alias analysis over go/ssa follows slices, cells, helper calls, callbacks passed as function-typed parameters and the modelled library calls); writing into the buffer and passing it to io.Writer.Write / AEAD Seal/Open is allowed by their no-retain contracts. A value that escapes outlives the Put and carries another caller's bytes. (B2) package-level state inventory — every package-level variable of the module is (a) never stored to and never written through (elements, map entries, appends, in-place library writes) outside package initialisation, or (b) a sync.Pool used only through Get/Put, or (c) a synchronisation object, or (d) listed in the guarded table (logger.globalLoggers ← logger.globalLoggersLock) with every access under that lock (write mode for writes). (B3) byteslicepool.Get hands out only zeroed or fresh memory. NOT decided: data-race freedom in general, 'same results when run concurrently' (needs execution); per-object state is covered by C13/C14."
-	r.Assumptions = append(r.Assumptions, "library model table of kitcheck/taint.go; interface calls into the module are covered by the io.Writer / cipher.AEAD contract models", "method calls on package-level objects of library types (loggers, parsers with value receivers) do not mutate shared state")
-	r.Rule("C08.B1-pool-escape", "no value derived from a sync.Pool buffer escapes the function that holds it", 3)
-	r.Rule("C08.B2-inventory", "package-level variables: read-only after init, Pool via Get/Put, sync object, or guarded-by table", 30)
+	r.Explanation = "Decides structural necessary conditions of C08. (B1) pooled-buffer escape — in the whole module no value that may share memory with a buffer obtained from a sync.Pool (BufPool, the byte-slice pool) is stored into a field/global/heap object, sent on a channel or handed to a goroutine, and none is returned by a function that also gives the buffer back to the pool (a summary-based alias analysis over go/ssa follows slices, cells, helper calls in both directions — the Get and the Put may each live in a helper, a deferred closure or a deferred named function —, callbacks passed as function-typed parameters and the modelled library calls). A function that obtains a buffer and returns it without ever giving it back hands it over: its callers are judged as holders. Writing into the buffer and passing it to io.Writer.Write / AEAD Seal/Open is allowed by their no-retain contracts. (B2) package-level state inventory — every package-level variable of the module is (a) never stored to and never written through (elements, map entries, appends, in-place library writes, also through same-module helpers that receive it) outside package initialisation, or (b) a sync.Pool used only through Get/Put (also through helpers that receive its address), or (c) a synchronisation object, or (d) mutated after initialisation but then every access (load, look-up, iteration, update, hand-over to a call) happens while one package-level sync.Mutex/RWMutex of the same package is held (write mode for writes); the guard is inferred, not named: some lock of the package must cover all accesses. A package-level struct that is the only object of its module type is treated field by field the same way (its own mutex fields are candidate guards). The guarded registries found this way are additionally required to be read and updated in one critical section per operation. (B3) byteslicepool.Get hands out only fresh memory or recycled memory that was zeroed over its whole length on every path (must-dataflow; clear(), up/down counted loops in any lowering, zeroing helpers; the recycled value may come from a helper), and Put stores the caller's slice without cutting its length. NOT decided: data-race freedom in general, 'same results when run concurrently' (needs execution), use of a pooled buffer after an early (non-deferred) Put inside the same function; per-object state is covered by C13/C14."
+	r.Assumptions = append(r.Assumptions, "library model table of kitcheck/taint.go; interface calls into the module are covered by the io.Writer / cipher.AEAD contract models", "method calls on package-level objects of library types (loggers, parsers with value receivers) do not mutate shared state", "a package-level variable assigned only inside a sync.Once.Do callback is not decided (UNDECIDED)")
+	r.Rule("C08.B1-pool-escape", "no value derived from a sync.Pool buffer escapes, or is returned by, a function that gives the buffer back", 2)
+	r.Rule("C08.B2-inventory", "package-level variables: read-only after init, Pool via Get/Put, sync object, or every access under one package-level lock", 30)
 	r.Rule("C08.B3-zeroed", "byteslicepool.Get returns zeroed or fresh memory", 1)
 
+	t := c08Taint(p)
+	e := c.Locks()
+
+	// ---- B1
+	c08B1(p, r, t)
+
+	// ---- B2
+	gspecs := c08B2(p, r, t, e)
+
+	// guarded registry: look-up-or-create must be one critical section or double-checked
+	r.Rule("C08.B2-registry-atomic", "a guarded package-level registry is read and updated in one critical section (or the inserting section re-checks)", 2)
+	CheckSingleSection(p, e, r, "C08.B2-registry-atomic", gspecs)
+
+	// ---- B3
+	c08B3(p, r, t)
+
+	c.Fixture("c08pool", func(fp *Prog, fr *Report) {
+		ft := NewTaintEngine(fp)
+		ft.TrackPools = true
+		ft.PoolRelease = true
+		ft.ReadOnly["bytes.Clone"] = true
+		ft.Run()
+		for _, v := range c08JudgePools(fp, ft) {
+			if v.fn.Parent() != nil {
+				continue
+			}
+			for _, w := range v.bad {
+				fr.Violation("e", FuncName(fp, v.fn)+" escape", "", w)
+			}
+		}
+		z := &c08Zero{p: fp, t: ft, clean: map[*ssa.Function]*c08ZeroVerdict{}, zp: map[string]int{}}
+		for _, fn := range fp.Funcs {
+			if fn.Parent() != nil || !strings.Contains(fn.Name(), "Zero") {
+				continue
+			}
+			v := z.cleanResults(fn)
+			if v.status != c08Clean {
+				fr.Violation("z", FuncName(fp, fn)+" zero", "", v.status.String()+": "+strings.Join(append(v.dirty, v.unknown...), "; "))
+			}
+		}
+	})
+
+	if os.Getenv("KC_C08_DEBUG") != "" {
+		for _, o := range r.Obs {
+			fmt.Fprintf(os.Stderr, "%-12s %-24s %s :: %s %v\n", o.Status, o.Rule, o.Construct, o.Message, o.Witness)
+		}
+	}
+}
+
+func c08Taint(p *Prog) *TaintEngine {
 	t := NewTaintEngine(p)
 	t.TrackPools = true
+	t.PoolRelease = true
 	for _, k := range c17ReadOnly {
 		t.ReadOnly[k] = true
 	}
 	for _, k := range c08ReadOnly {
 		t.ReadOnly[k] = true
 	}
+	// library containers that keep what they are given
+	for k, m := range map[string]ExtModel{
+		"sync/atomic.Pointer.Store": {Retains: []int{0}}, "sync/atomic.Pointer.Swap": {Retains: []int{0}}, "sync/atomic.Value.Store": {Retains: []int{0}},
+		"sync.Map.Store": {Retains: []int{0, 1}}, "sync.Map.LoadOrStore": {Retains: []int{0, 1}},
+		"container/list.List.PushBack": {Retains: []int{0}}, "container/list.List.PushFront": {Retains: []int{0}},
+	} {
+		if _, dup := t.Models[k]; !dup {
+			t.Models[k] = m
+		}
+	}
 	t.Run()
-	e := c.Locks()
+	return t
+}
 
-	// ---- B1
-	nGet := 0
-	unm := map[string]bool{}
+// ---------------------------------------------------------------- B1
+
+type c08PoolVerdict struct {
+	fn        *ssa.Function
+	labels    []string // pool labels the function deals with
+	bad       []string // positively established escapes
+	unsure    []string // returned and given back, but possibly on different paths
+	handsOver bool     // returns the pooled object and never gives it back
+	releases  bool
+}
+
+func c08PoolLabels(sum *TSummary) map[string]bool {
+	out := map[string]bool{}
+	for l := range sum.Releases {
+		if strings.HasPrefix(l, "pool:") {
+			out[l] = true
+		}
+	}
+	for l := range sum.Escapes {
+		if strings.HasPrefix(l, "pool:") {
+			out[l] = true
+		}
+	}
+	for _, ls := range sum.Ret {
+		for l := range ls {
+			if strings.HasPrefix(l, "pool:") {
+				out[l] = true
+			}
+		}
+	}
+	return out
+}
+
+// c08JudgePools judges every function that holds a pooled buffer: it calls
+// sync.Pool.Get itself or receives the buffer from a same-module function
+// that hands it over (the summaries carry the pool label to it).
+func c08JudgePools(p *Prog, t *TaintEngine) []c08PoolVerdict {
+	var out []c08PoolVerdict
 	for _, fn := range p.Funcs {
+		sum := t.Sum[fn]
+		if sum == nil {
+			continue
+		}
 		gets := false
 		allInstrs(fn, func(in ssa.Instruction) {
 			if ci, ok := in.(ssa.CallInstruction); ok && callIs(ci, "sync", "Pool", "Get") {
 				gets = true
 			}
 		})
-		if !gets {
+		lbl := c08PoolLabels(sum)
+		if d := os.Getenv("KC_C08_DEBUG"); d != "" && strings.Contains(FuncName(p, fn), d) {
+			fmt.Fprintf(os.Stderr, "SUM %s rel=%v esc=%v ret=%v unm=%v\n", FuncName(p, fn), sum.Releases, sum.Escapes, sum.Ret, sum.Unmodelled)
+		}
+		if !gets && len(lbl) == 0 {
 			continue
 		}
-		nGet++
-		sum := t.Sum[fn]
+		v := c08PoolVerdict{fn: fn}
+		for l := range lbl {
+			v.labels = append(v.labels, l)
+			if len(sum.Releases[l]) > 0 {
+				v.releases = true
+			}
+		}
+		sort.Strings(v.labels)
+		for _, l := range v.labels {
+			for _, s := range sum.Escapes[l] {
+				v.bad = append(v.bad, fmt.Sprintf("%s at %s", s.What, p.Pos(s.Pos)))
+			}
+		}
+		var js []int
+		for j := range sum.Ret {
+			js = append(js, j)
+		}
+		sort.Ints(js)
+		for _, j := range js {
+			for _, l := range sum.Ret[j].sorted() {
+				if !strings.HasPrefix(l, "pool:") {
+					continue
+				}
+				rel := sum.Releases[l]
+				if len(rel) == 0 {
+					// hands the pooled object to its caller and never gives it back itself: judged at its callers
+					v.handsOver = true
+					continue
+				}
+				switch c08ReleaseBeforeReturn(fn, j, rel) {
+				case 2:
+					v.bad = append(v.bad, fmt.Sprintf("result %d of %s may share memory with the pooled buffer that the function gives back (%s at %s)", j, FuncName(p, fn), rel[0].What, p.Pos(rel[0].Pos)))
+				case 1:
+					v.unsure = append(v.unsure, fmt.Sprintf("result %d of %s may share memory with a pooled buffer that the function gives back on some path (%s at %s); whether the returning paths are the releasing ones is not decided", j, FuncName(p, fn), rel[0].What, p.Pos(rel[0].Pos)))
+				default:
+					v.handsOver = true
+				}
+			}
+		}
+		sort.Strings(v.bad)
+		out = append(out, v)
+	}
+	return out
+}
+
+// c08ReleaseBeforeReturn: 2 = the release runs on every exit (deferred) or a
+// return that delivers a non-nil result j is reachable after a release;
+// 0 = no return delivering result j is reachable after a release (the
+// function releases only on paths where it hands nothing out).
+// 1 is reserved for shapes that cannot be ordered.
+func c08ReleaseBeforeReturn(fn *ssa.Function, j int, rel []TSite) int {
+	sites := map[ssa.Instruction]bool{}
+	for _, s := range rel {
+		if s.Instr == nil || s.Instr.Parent() != fn {
+			return 1
+		}
+		switch x := s.Instr.(type) {
+		case *ssa.Defer:
+			return 2
+		case *ssa.MakeClosure:
+			for _, rr := range refs(x) {
+				if _, ok := rr.(*ssa.Defer); ok {
+					return 2
+				}
+			}
+		}
+		sites[s.Instr] = true
+	}
+	ff := &FlagFlow{Fn: fn, Must: false, Transfer: func(in ssa.Instruction, st uint64) uint64 {
+		if sites[in] {
+			return st | 1
+		}
+		return st
+	}}
+	ff.Run()
+	res := 0
+	ff.AtReturns(func(ret *ssa.Return, st uint64) {
+		if st&1 == 0 || j >= len(ret.Results) {
+			return
+		}
+		for _, v := range unspill(ret.Results[j]) {
+			if !isNilConst(v) {
+				res = 2
+			}
+		}
+	})
+	return res
+}
+
+func c08B1(p *Prog, r *Report, t *TaintEngine) {
+	verdicts := c08JudgePools(p, t)
+	unm := map[string]bool{}
+	covered := map[string]bool{} // pool labels obtained and given back by some judged holder
+	for _, v := range verdicts {
+		fn := v.fn
 		construct := FuncName(p, fn) + " pooled buffer"
-		var w []string
-		for l, sites := range sum.Escapes {
-			if !strings.HasPrefix(l, "pool:") {
-				continue
-			}
-			for _, s := range sites {
-				if strings.Contains(s.What, "retained by sync.Pool.Put") {
-					continue // giving the buffer back
-				}
-				w = append(w, fmt.Sprintf("%s at %s", s.What, p.Pos(s.Pos)))
+		for _, l := range v.labels {
+			for _, u := range t.Sum[fn].Unknown[l] {
+				unm[fmt.Sprintf("%s at %s in %s", u.What, p.Pos(u.Pos), FuncName(p, u.Fn))] = true
 			}
 		}
-		for j, ls := range sum.Ret {
-			for l := range ls {
-				if strings.HasPrefix(l, "pool:") {
-					// a function whose job is to hand the pooled object to its caller (a pool wrapper) is judged at its callers
-					if c08IsPoolWrapper(fn) {
-						continue
-					}
-					w = append(w, fmt.Sprintf("result %d of %s may share memory with the pooled buffer", j, FuncName(p, fn)))
-				}
-			}
+		for _, l := range v.labels {
+			covered[l] = true
 		}
-		for _, u := range sum.Unmodelled {
-			unm[fmt.Sprintf("%s at %s in %s", u.What, p.Pos(u.Pos), FuncName(p, u.Fn))] = true
-		}
-		sort.Strings(w)
-		if len(w) > 0 {
-			r.Violation("C08.B1-pool-escape", construct, p.Pos(fn.Pos()), "a value that may share memory with the pooled buffer outlives the function that returns the buffer to the pool: another stream that gets the same buffer overwrites it (or reads this caller's bytes)", w...)
-		} else {
+		switch {
+		case len(v.bad) > 0:
+			r.Violation("C08.B1-pool-escape", construct, p.Pos(fn.Pos()), "a value that may share memory with the pooled buffer outlives the function that returns the buffer to the pool: another stream that gets the same buffer overwrites it (or reads this caller's bytes)", v.bad...)
+		case len(v.unsure) > 0:
+			r.Undecide("%s: %s", construct, strings.Join(v.unsure, "; "))
+		case v.handsOver:
+			r.OK("C08.B1-pool-escape", construct, p.Pos(fn.Pos()), "hands the pooled object over to its callers without giving it back (the callers are judged as holders); nothing else derived from it escapes")
+		default:
 			r.OK("C08.B1-pool-escape", construct, p.Pos(fn.Pos()), "nothing derived from the pooled buffer escapes")
 		}
 	}
-	r.Stats["functions_using_pools"] = nGet
+	r.Stats["functions_using_pools"] = len(verdicts)
 	if len(unm) > 0 {
 		var ul []string
 		for k := range unm {
@@ -93,9 +298,179 @@ func checkC08(c *Ctx) {
 		sort.Strings(ul)
 		r.Undecide("calls receiving a pooled buffer that are in neither the library model nor the reviewed read-only list: %s", strings.Join(ul, "; "))
 	}
+	// role anchors (exported, stable): the encryption scheme's BufPool and the byte-slice pool must be among the judged pools
+	encPkg := p.Pkg("schemes/enc/v1")
+	if obj := encPkg.Types.Scope().Lookup("BufPool"); obj == nil {
+		r.Undecide("exported anchor schemes/enc/v1.BufPool not found")
+	} else if !covered["pool:"+encPkg.PkgPath+".BufPool"] {
+		r.Undecide("no function of the module obtains a buffer from schemes/enc/v1.BufPool: the pooled-buffer rule would be vacuous for the encryption scheme")
+	}
+	get := p.Func("byteslicepool", "ByteSlicePool.Get")
+	seenGet := false
+	for _, v := range verdicts {
+		if v.fn == get {
+			seenGet = true
+		}
+	}
+	if !seenGet {
+		r.Undecide("byteslicepool.ByteSlicePool.Get does not obtain memory from a sync.Pool (directly or through a helper): anchor moved")
+	}
+}
 
-	// ---- B2
-	guarded := map[string]string{p.ModPath + "/logger.globalLoggers": p.ModPath + "/logger.globalLoggersLock"}
+// ---------------------------------------------------------------- B2
+
+func c08IsInitFunc(fn *ssa.Function) bool {
+	if fn == nil || fn.Parent() != nil || fn.Signature.Recv() != nil {
+		return false
+	}
+	return fn.Name() == "init" || strings.HasPrefix(fn.Name(), "init#")
+}
+
+type c08Acc struct {
+	in    ssa.Instruction
+	fn    *ssa.Function
+	write bool
+	what  string
+}
+
+// c08OnceCallback: fn is a function literal handed to sync.Once.Do (or sync.OnceFunc/OnceValue).
+func c08OnceCallback(fn *ssa.Function) bool {
+	par := fn.Parent()
+	if par == nil {
+		return false
+	}
+	found := false
+	allInstrs(par, func(in ssa.Instruction) {
+		mc, ok := in.(*ssa.MakeClosure)
+		var v ssa.Value
+		if ok && mc.Fn == ssa.Value(fn) {
+			v = mc
+		}
+		if ci, ok := in.(ssa.CallInstruction); ok {
+			for _, a := range ci.Common().Args {
+				if a == ssa.Value(fn) || (v != nil && a == v) {
+					if obj := calleeObj(ci); obj != nil && obj.Pkg() != nil && obj.Pkg().Path() == "sync" && strings.HasPrefix(obj.Name(), "Do") {
+						found = true
+					}
+				}
+				if m, ok := a.(*ssa.MakeClosure); ok && m.Fn == ssa.Value(fn) {
+					if obj := calleeObj(ci); obj != nil && obj.Pkg() != nil && obj.Pkg().Path() == "sync" && (obj.Name() == "Do" || strings.HasPrefix(obj.Name(), "Once")) {
+						found = true
+					}
+				}
+			}
+		}
+	})
+	return found
+}
+
+// c08PoolUses checks how the pool denoted by v (the global's address, or a
+// parameter that received it) is used inside fn. bad: positively not Get/Put;
+// unk: not followed.
+func c08PoolUses(p *Prog, fn *ssa.Function, v ssa.Value, depth int, bad, unk *[]string) {
+	inInit := c08IsInitFunc(fn) || (fn.Parent() != nil && c08IsInitFunc(fn.Parent()))
+	allInstrs(fn, func(in ssa.Instruction) {
+		uses := false
+		for _, op := range in.Operands(nil) {
+			if *op == v {
+				uses = true
+			}
+		}
+		if !uses {
+			return
+		}
+		where := fmt.Sprintf("at %s in %s", p.Pos(instrPos(in)), FuncName(p, fn))
+		switch x := in.(type) {
+		case ssa.CallInstruction:
+			cc := x.Common()
+			if (callIs(x, "sync", "Pool", "Get") || callIs(x, "sync", "Pool", "Put")) && len(cc.Args) > 0 && cc.Args[0] == v {
+				return
+			}
+			if cal := staticCallee(x); cal != nil && p.funcSet[cal] && depth < 4 {
+				for i, a := range cc.Args {
+					if a == v && i < len(cal.Params) {
+						c08PoolUses(p, cal, cal.Params[i], depth+1, bad, unk)
+					}
+				}
+				return
+			}
+			*unk = append(*unk, "sync.Pool handed to "+callDesc(x)+" "+where)
+		case *ssa.FieldAddr:
+			if x.X != v {
+				return
+			}
+			if inInit && c08IsInitFunc(fn) {
+				return // New: func literal in the initialiser
+			}
+			stored := false
+			for _, rr := range refs(x) {
+				if st, ok := rr.(*ssa.Store); ok && st.Addr == ssa.Value(x) {
+					stored = true
+				}
+			}
+			if stored {
+				*bad = append(*bad, "sync.Pool reconfigured (field assigned) after initialisation "+where)
+			}
+		case *ssa.Store:
+			if x.Addr == v {
+				if c08IsInitFunc(fn) {
+					return
+				}
+				*bad = append(*bad, "sync.Pool replaced (assigned) after initialisation "+where)
+				return
+			}
+			*unk = append(*unk, "address of the sync.Pool stored "+where)
+		case *ssa.UnOp:
+			if x.Op == token.MUL && x.X == v {
+				if _, isPtr := x.Type().Underlying().(*types.Pointer); isPtr {
+					// pointer-typed pool variable: follow the loaded pointer
+					for _, rr := range refs(x) {
+						if ci, ok := rr.(ssa.CallInstruction); ok && (callIs(ci, "sync", "Pool", "Get") || callIs(ci, "sync", "Pool", "Put")) {
+							continue
+						}
+						*unk = append(*unk, "pool pointer used other than for Get/Put "+where)
+					}
+					return
+				}
+				*bad = append(*bad, "sync.Pool copied by value "+where)
+			}
+		default:
+			*unk = append(*unk, fmt.Sprintf("sync.Pool used by %T %s", in, where))
+		}
+	})
+}
+
+// c08AddrWrites walks the uses of an address derived from a package-level
+// variable (field / element addresses) and reports stores and loads.
+func c08AddrAccesses(fn *ssa.Function, addr ssa.Value, what string, depth int, out *[]c08Acc) {
+	if depth > 5 {
+		return
+	}
+	for _, rr := range refs(addr) {
+		switch x := rr.(type) {
+		case *ssa.Store:
+			if x.Addr == addr {
+				*out = append(*out, c08Acc{in: rr, fn: fn, write: true, what: what + " assigned"})
+			}
+		case *ssa.UnOp:
+			if x.Op == token.MUL {
+				*out = append(*out, c08Acc{in: rr, fn: fn, what: what + " read"})
+			}
+		case *ssa.FieldAddr:
+			c08AddrAccesses(fn, x, "field "+fieldIDOfAddr(x).Field, depth+1, out)
+		case *ssa.IndexAddr:
+			c08AddrAccesses(fn, x, "element", depth+1, out)
+		case ssa.CallInstruction:
+			if _, isGo := rr.(*ssa.Go); isGo {
+				continue
+			}
+			*out = append(*out, c08Acc{in: rr, fn: fn, what: what + " address passed to " + callDesc(x)})
+		}
+	}
+}
+
+func c08B2(p *Prog, r *Report, t *TaintEngine, e *LockEngine) []GuardSpec {
+	var gspecs []GuardSpec
 	for _, pkg := range p.Pkgs {
 		if !strings.HasPrefix(pkg.PkgPath, p.ModPath) {
 			continue
@@ -108,6 +483,15 @@ func checkC08(c *Ctx) {
 			}
 		}
 		sort.Strings(names)
+		// candidate guards: the package-level mutexes of this package (by type)
+		var locks []string
+		for _, name := range names {
+			g := sp.Members[name].(*ssa.Global)
+			tn := namedKey(g.Type().(*types.Pointer).Elem())
+			if tn == "sync.Mutex" || tn == "sync.RWMutex" {
+				locks = append(locks, pkg.PkgPath+"."+name)
+			}
+		}
 		for _, name := range names {
 			g := sp.Members[name].(*ssa.Global)
 			gid := pkg.PkgPath + "." + name
@@ -118,11 +502,48 @@ func checkC08(c *Ctx) {
 				r.OK("C08.B2-inventory", construct, p.Pos(g.Pos()), "synchronisation object")
 				continue
 			}
-			var bad []string
-			isPool := tn == "sync.Pool"
-			lock := guarded[gid]
+			if tn == "sync.Pool" {
+				var bad, unk []string
+				for _, fn := range p.Funcs {
+					c08PoolUses(p, fn, g, 0, &bad, &unk)
+				}
+				sort.Strings(bad)
+				sort.Strings(unk)
+				if len(bad) > 0 {
+					r.Violation("C08.B2-inventory", construct, p.Pos(g.Pos()), "package-level state shared by all callers is mutated/used without the discipline that keeps independent operations independent", bad...)
+				} else if len(unk) > 0 {
+					r.Undecide("%s: uses of the pool that are not followed: %s", construct, strings.Join(unk, "; "))
+				} else {
+					r.OK("C08.B2-inventory", construct, p.Pos(g.Pos()), "sync.Pool used only through Get/Put")
+				}
+				continue
+			}
+			want := FieldID{Type: "global", Field: gid}
+			var accs []c08Acc
+			var unk []string
+			seen := map[ssa.Instruction]bool{}
+			add := func(a c08Acc) {
+				if a.in == nil {
+					return
+				}
+				if seen[a.in] {
+					if a.write {
+						for i := range accs {
+							if accs[i].in == a.in && !accs[i].write {
+								accs[i].write, accs[i].what = true, a.what
+							}
+						}
+					}
+					return
+				}
+				seen[a.in] = true
+				accs = append(accs, a)
+			}
 			for _, fn := range p.Funcs {
-				inInit := fn.Name() == "init" || (fn.Parent() != nil && fn.Parent().Name() == "init")
+				if c08IsInitFunc(fn) {
+					continue
+				}
+				// (1) direct uses of the variable's address
 				allInstrs(fn, func(in ssa.Instruction) {
 					uses := false
 					for _, op := range in.Operands(nil) {
@@ -133,247 +554,1139 @@ func checkC08(c *Ctx) {
 					if !uses {
 						return
 					}
-					if isPool {
-						ci, ok := in.(ssa.CallInstruction)
-						if ok && (callIs(ci, "sync", "Pool", "Get") || callIs(ci, "sync", "Pool", "Put")) {
-							return
+					switch x := in.(type) {
+					case *ssa.Store:
+						if x.Addr == ssa.Value(g) {
+							add(c08Acc{in: in, fn: fn, write: true, what: "assigned"})
+						} else {
+							unk = append(unk, fmt.Sprintf("address of the variable stored at %s in %s", p.Pos(instrPos(in)), FuncName(p, fn)))
 						}
-						if _, isFA := in.(*ssa.FieldAddr); isFA && inInit {
-							return // New: func literal in the initialiser
-						}
-						bad = append(bad, fmt.Sprintf("sync.Pool used other than through Get/Put at %s in %s", p.Pos(instrPos(in)), FuncName(p, fn)))
-						return
-					}
-					if inInit && fn.Parent() == nil {
-						return
-					}
-					if st, ok := in.(*ssa.Store); ok && st.Addr == ssa.Value(g) {
-						if lock == "" || e.At(in)[lock] != ModeW {
-							bad = append(bad, fmt.Sprintf("assigned at %s in %s", p.Pos(instrPos(in)), FuncName(p, fn)))
-						}
-						return
-					}
-					if lock != "" {
-						need := ModeR
-						if e.At(in)[lock] < need {
-							bad = append(bad, fmt.Sprintf("read at %s in %s without %s", p.Pos(instrPos(in)), FuncName(p, fn), shortID(lock)))
-						}
-					}
-				})
-				if inInit && fn.Parent() == nil {
-					continue
-				}
-				for _, s := range t.Sum[fn].Writes["global:"+gid] {
-					if !s.Local {
-						continue
-					}
-					if lock != "" && s.Instr != nil && e.At(s.Instr)[lock] == ModeW {
-						continue
-					}
-					bad = append(bad, fmt.Sprintf("%s at %s in %s", s.What, p.Pos(s.Pos), FuncName(p, fn)))
-				}
-				// struct-valued globals: stores to their fields
-				allInstrs(fn, func(in ssa.Instruction) {
-					if fa, ok := in.(*ssa.FieldAddr); ok && fa.X == ssa.Value(g) {
-						for _, rr := range refs(fa) {
-							if st, ok := rr.(*ssa.Store); ok && st.Addr == ssa.Value(fa) {
-								bad = append(bad, fmt.Sprintf("field %s assigned at %s in %s", fieldIDOfAddr(fa).Field, p.Pos(instrPos(st)), FuncName(p, fn)))
-							}
-						}
-					}
-				})
-				// guarded map: content reads must hold the lock too (range/lookup on the loaded value)
-				if lock != "" {
-					allInstrs(fn, func(in ssa.Instruction) {
-						ld, ok := in.(*ssa.UnOp)
-						if !ok || ld.Op != token.MUL || ld.X != ssa.Value(g) {
-							return
-						}
-						for _, rr := range refs(ld) {
-							switch x := rr.(type) {
-							case *ssa.Lookup, *ssa.Range, *ssa.MapUpdate:
-								need := ModeR
-								if _, w := x.(*ssa.MapUpdate); w {
-									need = ModeW
-								}
-								if e.At(rr)[lock] < need {
-									bad = append(bad, fmt.Sprintf("map access at %s in %s without %s(%s)", p.Pos(instrPos(rr)), FuncName(p, fn), shortID(lock), need))
-								}
-								if rg, ok := x.(*ssa.Range); ok {
-									for _, r2 := range refs(rg) {
-										if e.At(r2)[lock] < ModeR {
-											bad = append(bad, fmt.Sprintf("map iteration at %s in %s outside %s", p.Pos(instrPos(r2)), FuncName(p, fn), shortID(lock)))
-										}
+					case *ssa.UnOp:
+						add(c08Acc{in: in, fn: fn, what: "read"})
+						if x.Op == token.MUL && isRefKind(x.Type()) {
+							for _, rr := range refs(x) {
+								if _, ok := rr.(*ssa.Return); ok {
+									if isExportedFunc(fn) {
+										add(c08Acc{in: rr, fn: fn, what: "the variable's map/slice itself is returned to callers outside the package (they cannot hold the guard)"})
+									} else {
+										add(c08Acc{in: rr, fn: fn, what: "the variable's map/slice itself is returned"})
 									}
 								}
-							case *ssa.Return:
-								bad = append(bad, fmt.Sprintf("the guarded map itself is returned at %s in %s", p.Pos(instrPos(rr)), FuncName(p, fn)))
 							}
 						}
-					})
-				}
-			}
-			sort.Strings(bad)
-			kind := "never written (or written through) outside package initialisation"
-			if isPool {
-				kind = "sync.Pool used only through Get/Put"
-			}
-			if lock != "" {
-				kind = "every access under " + shortID(lock) + " (W for writes)"
-			}
-			if len(bad) > 0 {
-				r.Violation("C08.B2-inventory", construct, p.Pos(g.Pos()), "package-level state shared by all callers is mutated/used without the discipline that keeps independent operations independent", bad...)
-			} else {
-				r.OK("C08.B2-inventory", construct, p.Pos(g.Pos()), kind)
-			}
-		}
-	}
-
-	// guarded registry: look-up-or-create must be one critical section or double-checked
-	r.Rule("C08.B2-registry-atomic", "a guarded package-level registry is read and updated in one critical section (or the inserting section re-checks)", 2)
-	var gspecs []GuardSpec
-	for gid, lock := range guarded {
-		gspecs = append(gspecs, GuardSpec{Field: FieldID{Type: "global", Field: gid}, Lock: lock})
-	}
-	CheckSingleSection(p, e, r, "C08.B2-registry-atomic", gspecs)
-
-	// ---- B3
-	get := p.Func("byteslicepool", "ByteSlicePool.Get")
-	okZ, nret := true, 0
-	why := ""
-	allInstrs(get, func(in ssa.Instruction) {
-		ret, ok := in.(*ssa.Return)
-		if !ok || len(ret.Results) != 1 {
-			return
-		}
-		nret++
-		for _, v := range unspill(ret.Results[0]) {
-			if !c08ZeroedOrFresh(v, get, ret) {
-				okZ = false
-				why = "Get can return (at " + p.Pos(ret.Pos()) + ") a recycled slice that was not zeroed over its whole length: the previous user's bytes become visible to the next caller"
-			}
-		}
-	})
-	// the zeroing loop covers len(buf): sound only if Put stores the slice with the length its user left it at
-	put := p.Func("byteslicepool", "ByteSlicePool.Put")
-	allInstrs(put, func(in ssa.Instruction) {
-		ci, ok := in.(ssa.CallInstruction)
-		if !ok || !callIs(ci, "sync", "Pool", "Put") {
-			return
-		}
-		v := ci.Common().Args[1]
-		if mi, ok := v.(*ssa.MakeInterface); ok {
-			v = mi.X
-		}
-		if _, isParam := v.(*ssa.Parameter); !isParam {
-			okZ = false
-			why = "Put stores a re-sliced view of the caller's slice (not the slice at the length its user left it at) while Get only zeroes len(buf) bytes of what it recycles: bytes written by the previous user beyond the stored length are handed to the next caller as soon as it grows the slice within its capacity"
-		}
-	})
-	r.Check(okZ && nret > 0, "C08.B3-zeroed", "byteslicepool.ByteSlicePool.Get", p.Pos(get.Pos()), "recycled slices are zeroed over their whole length before being handed out; otherwise fresh memory", why)
-
-	c.Fixture("c08pool", func(fp *Prog, fr *Report) {
-		ft := NewTaintEngine(fp)
-		ft.TrackPools = true
-		ft.ReadOnly["bytes.Clone"] = true
-		ft.Run()
-		for _, fn := range fp.Funcs {
-			if fn.Parent() != nil {
-				continue
-			}
-			sum := ft.Sum[fn]
-			for l, sites := range sum.Escapes {
-				if strings.HasPrefix(l, "pool:") {
-					for _, s := range sites {
-						if !strings.Contains(s.What, "retained by sync.Pool.Put") {
-							fr.Violation("e", FuncName(fp, fn)+" escape", "", s.What)
+					case *ssa.FieldAddr:
+						var sub []c08Acc
+						c08AddrAccesses(fn, x, "field "+fieldIDOfAddr(x).Field, 0, &sub)
+						for _, a := range sub {
+							if ci, ok := a.in.(ssa.CallInstruction); ok {
+								if _, _, isLock := e.lockOp(ci); isLock {
+									continue
+								}
+							}
+							add(a)
 						}
-					}
-				}
-			}
-			for _, ls := range sum.Ret {
-				for l := range ls {
-					if strings.HasPrefix(l, "pool:") {
-						fr.Violation("e", FuncName(fp, fn)+" returns", "", "returns pooled memory")
-					}
-				}
-			}
-		}
-	})
-}
-
-// c08IsPoolWrapper: the function's purpose is to hand the pooled object to
-// its caller (it does not Put it back itself).
-func c08IsPoolWrapper(fn *ssa.Function) bool {
-	puts := false
-	allInstrs(fn, func(in ssa.Instruction) {
-		if ci, ok := in.(ssa.CallInstruction); ok && callIs(ci, "sync", "Pool", "Put") {
-			puts = true
-		}
-		if d, ok := in.(*ssa.Defer); ok {
-			if f := staticCallee(d); f != nil {
-				allInstrs(f, func(j ssa.Instruction) {
-					if cj, ok := j.(ssa.CallInstruction); ok && callIs(cj, "sync", "Pool", "Put") {
-						puts = true
+					case *ssa.IndexAddr:
+						var sub []c08Acc
+						c08AddrAccesses(fn, x, "element", 0, &sub)
+						for _, a := range sub {
+							add(a)
+						}
+					default:
+						add(c08Acc{in: in, fn: fn, what: "used"})
 					}
 				})
+				// (2) uses of the value loaded from it (look-ups, iteration, updates, hand-over to calls)
+				for _, a := range FieldAccesses(fn, func(id FieldID) bool { return id == want }) {
+					add(c08Acc{in: a.Instr, fn: fn, write: a.Kind == AccWrite, what: a.What})
+				}
+				// (3) writes through values that may share its memory (alias analysis), also through helpers that received it
+				for _, s := range t.Sum[fn].Writes["global:"+gid] {
+					if s.Instr == nil {
+						continue
+					}
+					if !s.Local {
+						// inherited through a call: if the callee itself reaches the variable it is judged there
+						var cal *ssa.Function
+						switch x := s.Instr.(type) {
+						case ssa.CallInstruction:
+							cal = staticCallee(x)
+						case *ssa.MakeClosure:
+							cal, _ = x.Fn.(*ssa.Function)
+						}
+						if cal != nil && t.Sum[origin(cal)] != nil && len(t.Sum[origin(cal)].Writes["global:"+gid]) > 0 {
+							continue
+						}
+					}
+					add(c08Acc{in: s.Instr, fn: fn, write: true, what: s.What})
+				}
 			}
+			var writes []c08Acc
+			for _, a := range accs {
+				if a.write {
+					writes = append(writes, a)
+				}
+			}
+			desc := func(a c08Acc) string {
+				return fmt.Sprintf("%s at %s in %s", a.what, p.Pos(instrPos(a.in)), FuncName(p, a.fn))
+			}
+			if len(writes) == 0 {
+				// a singleton struct (the only object of its type) is package-level state field by field
+				fbad, fspecs, fmsg := c08SingletonFields(p, e, g, elem, locks)
+				if len(fbad) > 0 {
+					r.Violation("C08.B2-inventory", construct, p.Pos(g.Pos()), "package-level state shared by all callers is mutated/used without the discipline that keeps independent operations independent", fbad...)
+					gspecs = append(gspecs, fspecs...)
+					continue
+				}
+				gspecs = append(gspecs, fspecs...)
+				r.OK("C08.B2-inventory", construct, p.Pos(g.Pos()), "never written (or written through) outside package initialisation"+fmsg)
+				continue
+			}
+			// mutated after initialisation: some package-level lock must be held at every access
+			best, bestLock := []string(nil), ""
+			for _, lock := range locks {
+				var bad []string
+				for _, a := range accs {
+					need := ModeR
+					if a.write {
+						need = ModeW
+					}
+					if strings.Contains(a.what, "itself is returned") {
+						bad = append(bad, desc(a))
+						continue
+					}
+					if !e.Reachable(a.in) {
+						continue
+					}
+					if held := e.At(a.in)[lock]; held < need {
+						bad = append(bad, fmt.Sprintf("%s needs %s(%s), holds %s", desc(a), shortID(lock), need, held))
+					}
+				}
+				sort.Strings(bad)
+				if bestLock == "" || len(bad) < len(best) {
+					best, bestLock = bad, lock
+				}
+			}
+			if bestLock != "" && len(best) == 0 {
+				if len(unk) > 0 {
+					sort.Strings(unk)
+					r.Undecide("%s: %s", construct, strings.Join(unk, "; "))
+					continue
+				}
+				r.OK("C08.B2-inventory", construct, p.Pos(g.Pos()), "every access under "+shortID(bestLock)+" (W for writes)")
+				gspecs = append(gspecs, GuardSpec{Field: want, Lock: bestLock})
+				continue
+			}
+			// only writes made by once-callbacks: lazily initialised, not decided here
+			allOnce := true
+			for _, w := range writes {
+				if !c08OnceCallback(w.fn) {
+					allOnce = false
+				}
+			}
+			if allOnce {
+				r.Undecide("%s is assigned only inside sync.Once callbacks (lazy initialisation): not decided", construct)
+				continue
+			}
+			if bestLock == "" {
+				for _, w := range writes {
+					best = append(best, desc(w)+" (the package has no package-level lock)")
+				}
+				sort.Strings(best)
+			} else {
+				// the registry is still subject to the single-section rule under its best candidate
+				gspecs = append(gspecs, GuardSpec{Field: want, Lock: bestLock})
+			}
+			r.Violation("C08.B2-inventory", construct, p.Pos(g.Pos()), "package-level state shared by all callers is mutated/used without the discipline that keeps independent operations independent", best...)
 		}
-	})
-	return !puts
+	}
+	return gspecs
 }
 
-// c08ZeroedOrFresh: v is a MakeSlice result, or a (re)slice of a value over
-// which a zeroing loop `for i := range buf { buf[i] = 0 }` dominates the return.
-func c08ZeroedOrFresh(v ssa.Value, fn *ssa.Function, ret *ssa.Return) bool {
-	switch x := v.(type) {
-	case *ssa.MakeSlice:
-		return true
-	case *ssa.Slice:
-		base := x.X
-		// find a store of constant 0 into base[idx] inside a loop whose exit dominates ret, idx ranging over len(base)
-		zeroed := false
+// c08SingletonFields: g is (a pointer to) a struct of a module type that has no
+// other instance in the module. Its fields are then package-level state: a
+// field mutated after initialisation must have every access under one lock —
+// a package-level mutex of the package or a mutex field of the struct itself.
+func c08SingletonFields(p *Prog, e *LockEngine, g *ssa.Global, elem types.Type, pkgLocks []string) (bad []string, specs []GuardSpec, msg string) {
+	t := elem
+	if pt, ok := t.Underlying().(*types.Pointer); ok {
+		t = pt.Elem()
+	}
+	named, ok := t.(*types.Named)
+	if !ok || named.Obj().Pkg() == nil || !strings.HasPrefix(named.Obj().Pkg().Path(), p.ModPath) {
+		return nil, nil, ""
+	}
+	st, ok := named.Underlying().(*types.Struct)
+	if !ok {
+		return nil, nil, ""
+	}
+	// singleton: no allocation of the type outside package initialisation, no other variable of the type
+	single := true
+	for _, fn := range p.Funcs {
+		if c08IsInitFunc(fn) {
+			continue
+		}
 		allInstrs(fn, func(in ssa.Instruction) {
-			st, ok := in.(*ssa.Store)
-			if !ok {
+			if a, ok := in.(*ssa.Alloc); ok && types.Identical(deref(a.Type()), t) {
+				single = false
+			}
+			if mk, ok := in.(*ssa.MakeInterface); ok && types.Identical(mk.X.Type(), t) {
+				single = false
+			}
+		})
+	}
+	for _, m := range g.Pkg.Members {
+		if og, ok := m.(*ssa.Global); ok && og != g {
+			ot := og.Type().(*types.Pointer).Elem()
+			if pt, ok := ot.Underlying().(*types.Pointer); ok {
+				ot = pt.Elem()
+			}
+			if types.Identical(ot, t) {
+				single = false
+			}
+		}
+	}
+	if !single {
+		return nil, nil, ""
+	}
+	tkey := namedKey(t)
+	locks := append([]string{}, pkgLocks...)
+	for i := 0; i < st.NumFields(); i++ {
+		if k := namedKey(st.Field(i).Type()); k == "sync.Mutex" || k == "sync.RWMutex" {
+			locks = append(locks, tkey+"."+st.Field(i).Name())
+		}
+	}
+	var guarded []string
+	for i := 0; i < st.NumFields(); i++ {
+		f := st.Field(i)
+		k := namedKey(f.Type())
+		if strings.HasPrefix(k, "sync.") || strings.HasPrefix(k, "sync/atomic.") {
+			continue
+		}
+		if _, isChan := f.Type().Underlying().(*types.Chan); isChan {
+			continue
+		}
+		id := FieldID{Type: tkey, Field: f.Name()}
+		var accs []Access
+		for _, fn := range p.Funcs {
+			if c08IsInitFunc(fn) {
+				continue
+			}
+			for _, a := range FieldAccesses(fn, func(x FieldID) bool { return x == id }) {
+				if !a.Fresh && e.Reachable(a.Instr) {
+					accs = append(accs, a)
+				}
+			}
+		}
+		mutated := false
+		for _, a := range accs {
+			if a.Kind == AccWrite {
+				mutated = true
+			}
+		}
+		if !mutated {
+			continue
+		}
+		var best []string
+		bestLock := ""
+		for _, lock := range locks {
+			var b []string
+			for _, a := range accs {
+				need := ModeR
+				if a.Kind == AccWrite {
+					need = ModeW
+				}
+				if held := e.At(a.Instr)[lock]; held < need {
+					b = append(b, fmt.Sprintf("field %s: %s (%s) at %s in %s needs %s(%s), holds %s", f.Name(), a.Kind, a.What, p.Pos(instrPos(a.Instr)), FuncName(p, a.Fn), shortID(lock), need, held))
+				}
+			}
+			if bestLock == "" || len(b) < len(best) {
+				best, bestLock = b, lock
+			}
+		}
+		switch {
+		case bestLock == "":
+			for _, a := range accs {
+				if a.Kind == AccWrite {
+					bad = append(bad, fmt.Sprintf("field %s: %s at %s in %s (no package-level lock and no mutex field guards it)", f.Name(), a.What, p.Pos(instrPos(a.Instr)), FuncName(p, a.Fn)))
+				}
+			}
+		case len(best) > 0:
+			bad = append(bad, best...)
+			specs = append(specs, GuardSpec{Field: id, Lock: bestLock})
+		default:
+			guarded = append(guarded, f.Name()+" under "+shortID(bestLock))
+			specs = append(specs, GuardSpec{Field: id, Lock: bestLock})
+		}
+	}
+	sort.Strings(bad)
+	if len(guarded) > 0 {
+		msg = "; the only object of its type: fields mutated after initialisation are guarded (" + strings.Join(guarded, ", ") + ")"
+	}
+	return bad, specs, msg
+}
+
+// ---------------------------------------------------------------- B3
+
+type c08Status int
+
+const (
+	c08Clean c08Status = iota
+	c08Dirty
+	c08Unknown
+)
+
+func (s c08Status) String() string { return [...]string{"clean", "dirty", "unknown"}[s] }
+
+type c08ZeroVerdict struct {
+	status  c08Status
+	dirty   []string // returns that can deliver recycled memory that was not zeroed
+	unknown []string // writes / origins that could not be assessed
+	nret    int
+	roots   int
+}
+
+type c08Zero struct {
+	p     *Prog
+	t     *TaintEngine
+	clean map[*ssa.Function]*c08ZeroVerdict
+	zp    map[string]int // "fn|i": 0 in progress, 1 zeroes, 2 does not, 3 unknown
+}
+
+// c08View: the values of fn that may denote the tracked slice (alias) and
+// those that certainly span it from index 0 up to (at least) its length (full).
+type c08View struct {
+	fn        *ssa.Function
+	alias     map[ssa.Value]bool
+	full      map[ssa.Value]bool
+	ignoreLow bool
+	t         *TaintEngine
+	roots     map[ssa.Value]bool
+}
+
+func c08IsZeroConst(v ssa.Value) bool {
+	k, ok := v.(*ssa.Const)
+	if !ok || k.Value == nil {
+		return false
+	}
+	if _, isBasic := k.Type().Underlying().(*types.Basic); !isBasic {
+		return false
+	}
+	if k.Value.Kind().String() != "Int" {
+		return false
+	}
+	return k.Int64() == 0
+}
+
+func c08IntConst(v ssa.Value, want int64) bool {
+	k, ok := v.(*ssa.Const)
+	if !ok || k.Value == nil || k.Value.Kind().String() != "Int" {
+		return false
+	}
+	return k.Int64() == want
+}
+
+// calleeRetParams: indices of the arguments of a same-module call whose memory result j may share.
+func (vw *c08View) calleeRetAliases(call *ssa.Call, j int) []int {
+	cal := staticCallee(call)
+	if cal == nil || vw.t == nil || vw.t.Sum[origin(cal)] == nil {
+		return nil
+	}
+	var out []int
+	for l := range vw.t.Sum[origin(cal)].Ret[j] {
+		var i int
+		if strings.HasPrefix(l, "p") {
+			if _, err := fmt.Sscanf(l, "p%d", &i); err == nil {
+				out = append(out, i)
+			}
+		}
+	}
+	sort.Ints(out)
+	return out
+}
+
+func c08Views(fn *ssa.Function, roots map[ssa.Value]bool, t *TaintEngine, ignoreLow bool) *c08View {
+	vw := &c08View{fn: fn, alias: map[ssa.Value]bool{}, full: map[ssa.Value]bool{}, ignoreLow: ignoreLow, t: t, roots: roots}
+	for v := range roots {
+		vw.alias[v] = true
+	}
+	cellVals := map[*ssa.Alloc][]ssa.Value{}
+	srcs := func(in ssa.Instruction) (ssa.Value, []ssa.Value) {
+		switch x := in.(type) {
+		case *ssa.TypeAssert:
+			return x, []ssa.Value{x.X}
+		case *ssa.ChangeType:
+			return x, []ssa.Value{x.X}
+		case *ssa.MakeInterface:
+			return x, []ssa.Value{x.X}
+		case *ssa.ChangeInterface:
+			return x, []ssa.Value{x.X}
+		case *ssa.Convert:
+			_, fs := x.X.Type().Underlying().(*types.Slice)
+			_, ts := x.Type().Underlying().(*types.Slice)
+			if fs && ts {
+				return x, []ssa.Value{x.X}
+			}
+		case *ssa.Slice:
+			return x, []ssa.Value{x.X}
+		case *ssa.Phi:
+			return x, x.Edges
+		case *ssa.Extract:
+			switch tu := x.Tuple.(type) {
+			case *ssa.TypeAssert:
+				if x.Index == 0 {
+					return x, []ssa.Value{tu}
+				}
+			case *ssa.Call:
+				if roots[tu] {
+					switch x.Type().Underlying().(type) {
+					case *types.Slice, *types.Interface:
+						return x, []ssa.Value{tu}
+					}
+					return nil, nil
+				}
+				var s []ssa.Value
+				for _, i := range vw.calleeRetAliases(tu, x.Index) {
+					if i < len(tu.Call.Args) {
+						s = append(s, tu.Call.Args[i])
+					}
+				}
+				return x, s
+			}
+		case *ssa.UnOp:
+			if x.Op == token.MUL {
+				if cell, ok := x.X.(*ssa.Alloc); ok {
+					return x, cellVals[cell]
+				}
+			}
+		case *ssa.Call:
+			if builtinName(x) == "append" && len(x.Call.Args) > 0 {
+				return x, []ssa.Value{x.Call.Args[0]}
+			}
+			if x.Call.Signature().Results().Len() == 1 {
+				var s []ssa.Value
+				for _, i := range vw.calleeRetAliases(x, 0) {
+					if i < len(x.Call.Args) {
+						s = append(s, x.Call.Args[i])
+					}
+				}
+				return x, s
+			}
+		}
+		return nil, nil
+	}
+	for changed := true; changed; {
+		changed = false
+		allInstrs(fn, func(in ssa.Instruction) {
+			if st, ok := in.(*ssa.Store); ok {
+				if cell, ok := st.Addr.(*ssa.Alloc); ok && vw.alias[st.Val] {
+					dup := false
+					for _, v := range cellVals[cell] {
+						if v == st.Val {
+							dup = true
+						}
+					}
+					if !dup {
+						cellVals[cell] = append(cellVals[cell], st.Val)
+						changed = true
+					}
+				}
 				return
 			}
-			ia, ok := st.Addr.(*ssa.IndexAddr)
-			if !ok || ia.X != base {
+			v, ss := srcs(in)
+			if v == nil || vw.alias[v] {
 				return
 			}
-			k, ok := st.Val.(*ssa.Const)
-			if !ok || k.Value == nil || k.Int64() != 0 {
-				return
-			}
-			// index is a phi bounded by len(base): loop header If cond idx < len(base)
-			hdr := false
-			allInstrs(fn, func(j ssa.Instruction) {
-				ifi, ok := j.(*ssa.If)
-				if !ok {
+			for _, s := range ss {
+				if vw.alias[s] {
+					vw.alias[v] = true
+					changed = true
 					return
 				}
-				if cmp, ok := decodeCond(ifi.Cond, true); ok && cmp.Op == token.LSS {
-					if call, ok := cmp.Y.(*ssa.Call); ok && builtinName(call) == "len" && call.Call.Args[0] == base {
-						// the loop's exit edge must dominate the return
-						if edgeDominates(ifi.Block(), ifi.Block().Succs[1], ret.Block()) {
-							hdr = true
+			}
+		})
+	}
+	// fullness: greatest fixpoint
+	for v := range vw.alias {
+		vw.full[v] = true
+	}
+	lenOfFull := func(v ssa.Value) bool {
+		c, ok := v.(*ssa.Call)
+		if !ok {
+			return false
+		}
+		b := builtinName(c)
+		return (b == "len" || b == "cap") && vw.full[c.Call.Args[0]]
+	}
+	for changed := true; changed; {
+		changed = false
+		for v := range vw.alias {
+			if !vw.full[v] || roots[v] {
+				continue
+			}
+			ok := true
+			in, isInstr := v.(ssa.Instruction)
+			if !isInstr {
+				ok = false
+			} else {
+				_, ss := srcs(in)
+				switch x := v.(type) {
+				case *ssa.Slice:
+					if !vw.full[x.X] {
+						ok = false
+					}
+					if x.Low != nil && !c08IntConst(x.Low, 0) && !ignoreLow {
+						ok = false
+					}
+					if x.High != nil && !lenOfFull(x.High) {
+						ok = false
+					}
+					if _, isSlice := x.X.Type().Underlying().(*types.Slice); !isSlice {
+						ok = false
+					}
+				case *ssa.Call:
+					ok = false // results of calls / append: extent unknown
+				case *ssa.Extract:
+					_, isTA := x.Tuple.(*ssa.TypeAssert)
+					if !(isTA || roots[x.Tuple]) || !vw.full[x.Tuple] {
+						ok = false
+					}
+				default:
+					for _, s := range ss {
+						if vw.alias[s] && !vw.full[s] {
+							ok = false
 						}
 					}
 				}
-			})
-			if hdr {
-				zeroed = true
 			}
-		})
-		return zeroed
-	case *ssa.Phi:
-		for _, ed := range x.Edges {
-			if !c08ZeroedOrFresh(ed, fn, ret) {
-				return false
+			if !ok {
+				delete(vw.full, v)
+				changed = true
 			}
 		}
-		return true
 	}
-	return false
+	return vw
+}
+
+// c08ZeroEdges recognises counted zeroing loops over a full view and returns
+// the CFG edges on which "every byte was set to zero" holds, together with the
+// zero stores that were accounted for.
+//
+// Argument: the stored index idx is an induction variable taking the values
+// 0,1,2,… (φ=phi(0, φ+1) with idx=φ, or φ=phi(-1, idx) with idx=φ+1) and the
+// store executes in every iteration (its block dominates every latch). Then at
+// a point dominated by the φ-block all indices below the next index were
+// stored, so an edge taken because `next >= len(view)` (in any spelling)
+// establishes the fact; `0 >= len(view)` establishes it trivially. Down-counting
+// loops from len-1 symmetric.
+func c08ZeroEdges(fn *ssa.Function, vw *c08View) (edges map[[2]*ssa.BasicBlock]bool, accounted map[*ssa.Store]bool) {
+	edges = map[[2]*ssa.BasicBlock]bool{}
+	accounted = map[*ssa.Store]bool{}
+	lenOfFull := func(v ssa.Value) bool {
+		c, ok := v.(*ssa.Call)
+		return ok && builtinName(c) == "len" && vw.full[c.Call.Args[0]]
+	}
+	lenMinus1 := func(v ssa.Value) bool {
+		b, ok := v.(*ssa.BinOp)
+		return ok && b.Op == token.SUB && lenOfFull(b.X) && c08IntConst(b.Y, 1)
+	}
+	type iv struct {
+		st   *ssa.Store
+		phi  *ssa.Phi
+		next []ssa.Value // values denoting "the next index to be stored" and the block that must dominate the test
+		dom  []*ssa.BasicBlock
+		down bool
+	}
+	var ivs []iv
+	allInstrs(fn, func(in ssa.Instruction) {
+		st, ok := in.(*ssa.Store)
+		if !ok || !c08IsZeroConst(st.Val) {
+			return
+		}
+		ia, ok := st.Addr.(*ssa.IndexAddr)
+		if !ok || !vw.full[ia.X] {
+			return
+		}
+		idx := ia.Index
+		step := func(v ssa.Value, of ssa.Value, tok token.Token) bool {
+			b, ok := v.(*ssa.BinOp)
+			if !ok || b.Op != tok {
+				return false
+			}
+			if b.X == of && c08IntConst(b.Y, 1) {
+				return true
+			}
+			return tok == token.ADD && b.Y == of && c08IntConst(b.X, 1)
+		}
+		latchesOK := func(phi *ssa.Phi, nextVal func(ssa.Value) bool, initVal func(ssa.Value) bool) bool {
+			nInit, nNext := 0, 0
+			for k, ed := range phi.Edges {
+				switch {
+				case nextVal(ed):
+					nNext++
+					if !st.Block().Dominates(phi.Block().Preds[k]) {
+						return false
+					}
+				case initVal(ed):
+					nInit++
+				default:
+					return false
+				}
+			}
+			return nInit > 0 && nNext > 0
+		}
+		// kind 1: idx = φ, φ = phi(0, φ+1)
+		if phi, ok := idx.(*ssa.Phi); ok {
+			var inc ssa.Value
+			if latchesOK(phi, func(v ssa.Value) bool {
+				if step(v, phi, token.ADD) {
+					inc = v
+					return true
+				}
+				return false
+			}, func(v ssa.Value) bool { return c08IntConst(v, 0) }) {
+				ivs = append(ivs, iv{st: st, phi: phi, next: []ssa.Value{phi, inc}, dom: []*ssa.BasicBlock{phi.Block(), st.Block()}})
+				return
+			}
+			// kind 3 (down): idx = φ, φ = phi(len(view)-1, φ-1)
+			var dec ssa.Value
+			if latchesOK(phi, func(v ssa.Value) bool {
+				if step(v, phi, token.SUB) {
+					dec = v
+					return true
+				}
+				return false
+			}, func(v ssa.Value) bool {
+				b, ok := v.(*ssa.BinOp)
+				return ok && b.Op == token.SUB && lenOfFull(b.X) && c08IntConst(b.Y, 1)
+			}) {
+				ivs = append(ivs, iv{st: st, phi: phi, next: []ssa.Value{phi, dec}, dom: []*ssa.BasicBlock{phi.Block(), st.Block()}, down: true})
+				return
+			}
+		}
+		// kind 2: idx = φ+1, φ = phi(-1, idx)
+		if b, ok := idx.(*ssa.BinOp); ok && b.Op == token.ADD {
+			var phi *ssa.Phi
+			if ph, ok := b.X.(*ssa.Phi); ok && c08IntConst(b.Y, 1) {
+				phi = ph
+			} else if ph, ok := b.Y.(*ssa.Phi); ok && c08IntConst(b.X, 1) {
+				phi = ph
+			}
+			if phi != nil && latchesOK(phi, func(v ssa.Value) bool { return v == idx }, func(v ssa.Value) bool { return c08IntConst(v, -1) }) {
+				ivs = append(ivs, iv{st: st, phi: phi, next: []ssa.Value{idx}, dom: []*ssa.BasicBlock{b.Block()}})
+			}
+		}
+	})
+	for _, b := range fn.Blocks {
+		if len(b.Instrs) == 0 || len(b.Succs) != 2 || b.Succs[0] == b.Succs[1] {
+			continue
+		}
+		ifi, ok := b.Instrs[len(b.Instrs)-1].(*ssa.If)
+		if !ok {
+			continue
+		}
+		for side := 0; side < 2; side++ {
+			cmp, ok := decodeCond(ifi.Cond, side == 0)
+			if !ok {
+				continue
+			}
+			// normalise to  next >= len  /  next == len   (up)   or   next < 0 (down)
+			var nextV ssa.Value
+			up, down := false, false
+			switch {
+			case (cmp.Op == token.GEQ || cmp.Op == token.EQL) && lenOfFull(cmp.Y):
+				nextV, up = cmp.X, true
+			case (cmp.Op == token.LEQ || cmp.Op == token.EQL) && lenOfFull(cmp.X):
+				nextV, up = cmp.Y, true
+			case cmp.Op == token.GTR && lenMinus1(cmp.Y): // next > len-1
+				nextV, up = cmp.X, true
+			case cmp.Op == token.LSS && lenMinus1(cmp.X): // len-1 < next
+				nextV, up = cmp.Y, true
+			case cmp.Op == token.LSS && lenOfFull(cmp.X) && c08IntConst(cmp.Y, 1): // len < 1
+				edges[[2]*ssa.BasicBlock{b, b.Succs[side]}] = true
+			case cmp.Op == token.GTR && lenOfFull(cmp.Y) && c08IntConst(cmp.X, 1): // 1 > len
+				edges[[2]*ssa.BasicBlock{b, b.Succs[side]}] = true
+			case cmp.Op == token.LSS && c08IntConst(cmp.Y, 0), cmp.Op == token.LEQ && c08IntConst(cmp.Y, -1):
+				nextV, down = cmp.X, true
+			case cmp.Op == token.GTR && c08IntConst(cmp.X, 0), cmp.Op == token.GEQ && c08IntConst(cmp.X, -1):
+				nextV, down = cmp.Y, true
+			}
+			if nextV == nil {
+				continue
+			}
+			if up && c08IntConst(nextV, 0) {
+				edges[[2]*ssa.BasicBlock{b, b.Succs[side]}] = true // empty slice
+				continue
+			}
+			for _, v := range ivs {
+				if v.down != down || v.down == up {
+					continue
+				}
+				for k, nv := range v.next {
+					if nv == nextV && v.dom[k].Dominates(b) {
+						edges[[2]*ssa.BasicBlock{b, b.Succs[side]}] = true
+						accounted[v.st] = true
+					}
+				}
+			}
+		}
+	}
+	return edges, accounted
+}
+
+// zeroFlow runs the must-dataflow "the tracked slice was zeroed over its whole
+// length" and returns the state before each return, plus writes it could not assess.
+func (z *c08Zero) zeroFlow(fn *ssa.Function, vw *c08View) (atRet map[*ssa.Return]bool, unassessed []string) {
+	p := z.p
+	edges, accounted := c08ZeroEdges(fn, vw)
+	zeroAt := map[ssa.Instruction]bool{}
+	allInstrs(fn, func(in ssa.Instruction) {
+		where := p.Pos(instrPos(in))
+		switch x := in.(type) {
+		case *ssa.Store:
+			ia, ok := x.Addr.(*ssa.IndexAddr)
+			if ok && vw.alias[ia.X] && !accounted[x] {
+				unassessed = append(unassessed, "element store into the recycled slice at "+where+" that is not a recognised whole-length zeroing loop")
+			}
+		case ssa.CallInstruction:
+			cc := x.Common()
+			if b := builtinName(x); b != "" {
+				switch b {
+				case "clear":
+					if vw.full[cc.Args[0]] {
+						zeroAt[in] = true
+					} else if vw.alias[cc.Args[0]] {
+						unassessed = append(unassessed, "clear of a sub-range of the recycled slice at "+where)
+					}
+				case "copy":
+					if ms, ok := cc.Args[1].(*ssa.MakeSlice); ok && vw.full[cc.Args[0]] {
+						// copy(buf, make([]byte, len(buf))): the source is fresh zero memory of the same length
+						if lc, ok := ms.Len.(*ssa.Call); ok && builtinName(lc) == "len" && vw.full[lc.Call.Args[0]] {
+							zeroAt[in] = true
+							return
+						}
+					}
+					if vw.alias[cc.Args[0]] {
+						unassessed = append(unassessed, "copy into the recycled slice at "+where)
+					}
+				case "append":
+					if len(cc.Args) > 1 && vw.alias[cc.Args[0]] {
+						unassessed = append(unassessed, "append to the recycled slice at "+where)
+					}
+				}
+				return
+			}
+			if callIs(x, "sync", "Pool", "Put") || callIs(x, "sync", "Pool", "Get") {
+				return
+			}
+			cal := staticCallee(x)
+			for i, a := range cc.Args {
+				if !vw.alias[a] {
+					continue
+				}
+				if cal != nil && p.funcSet[cal] && !cc.IsInvoke() {
+					switch z.zeroesParam(cal, i) {
+					case 1:
+						if vw.full[a] {
+							zeroAt[in] = true
+						} else {
+							unassessed = append(unassessed, "zeroing helper "+FuncName(p, cal)+" applied to a sub-range at "+where)
+						}
+					case 3:
+						unassessed = append(unassessed, "helper "+FuncName(p, cal)+" writes the recycled slice in a way that is not assessed, at "+where)
+					default:
+						// the helper is fully understood and does not establish the fact on every path: no event
+					}
+					continue
+				}
+				key := extKey(calleeObj(x))
+				if z.t.ReadOnly[key] {
+					continue
+				}
+				if m, ok := z.t.Models[key]; ok && len(m.Writes) == 0 {
+					continue
+				}
+				unassessed = append(unassessed, "recycled slice passed to "+callDesc(x)+" at "+where)
+			}
+		}
+	})
+	// The fact is "no recycled memory is live on this path, or it was zeroed over
+	// its whole length": true at entry unless a parameter is the tracked slice,
+	// false from the point where the recycled value is obtained, true again
+	// after a zeroing event or on an edge that establishes the value is nil
+	// (nothing was recycled: `x == nil`, a failed comma-ok assertion).
+	entry := uint64(1)
+	for v := range vw.roots {
+		if _, isParam := v.(*ssa.Parameter); isParam {
+			entry = 0
+		}
+	}
+	isNilTest := func(from, to *ssa.BasicBlock) bool {
+		if len(from.Instrs) == 0 || len(from.Succs) != 2 || from.Succs[0] == from.Succs[1] {
+			return false
+		}
+		ifi, ok := from.Instrs[len(from.Instrs)-1].(*ssa.If)
+		if !ok {
+			return false
+		}
+		side := from.Succs[0] == to
+		if cmp, ok := decodeCond(ifi.Cond, side); ok && cmp.Op == token.EQL {
+			if (vw.full[cmp.X] && isNilConst(cmp.Y)) || (vw.full[cmp.Y] && isNilConst(cmp.X)) {
+				return true
+			}
+			return false
+		}
+		// `v, ok := x.(T)`: on the !ok edge v is the zero value
+		cond, want := ifi.Cond, side
+		for {
+			if u, ok := cond.(*ssa.UnOp); ok && u.Op == token.NOT {
+				cond, want = u.X, !want
+				continue
+			}
+			break
+		}
+		if ex, ok := cond.(*ssa.Extract); ok && ex.Index == 1 && !want {
+			if ta, ok := ex.Tuple.(*ssa.TypeAssert); ok && vw.alias[ta] {
+				return true
+			}
+		}
+		return false
+	}
+	ff := &FlagFlow{Fn: fn, Must: true, Entry: entry}
+	ff.Transfer = func(in ssa.Instruction, st uint64) uint64 {
+		if _, isDefer := in.(*ssa.Defer); isDefer && !ff.Replaying {
+			return st
+		}
+		if v, ok := in.(ssa.Value); ok && vw.roots[v] {
+			return st &^ 1
+		}
+		if zeroAt[in] {
+			return st | 1
+		}
+		return st
+	}
+	ff.EdgeTransfer = func(from, to *ssa.BasicBlock, st uint64) uint64 {
+		if edges[[2]*ssa.BasicBlock{from, to}] || isNilTest(from, to) {
+			return st | 1
+		}
+		return st
+	}
+	ff.Run()
+	atRet = map[*ssa.Return]bool{}
+	ff.AtReturns(func(ret *ssa.Return, st uint64) { atRet[ret] = st&1 != 0 })
+	sort.Strings(unassessed)
+	return atRet, unassessed
+}
+
+// zeroesParam: 1 = fn zeroes parameter i over its whole length on every
+// return path, 2 = it does not (and does nothing unassessed), 3 = unknown.
+func (z *c08Zero) zeroesParam(fn *ssa.Function, i int) int {
+	fn = origin(fn)
+	key := fmt.Sprintf("%p|%d", fn, i)
+	if v, ok := z.zp[key]; ok {
+		if v == 0 {
+			return 3 // recursion
+		}
+		return v
+	}
+	z.zp[key] = 0
+	res := 2
+	if i < len(fn.Params) && len(fn.Blocks) > 0 {
+		if _, isSlice := fn.Params[i].Type().Underlying().(*types.Slice); isSlice {
+			vw := c08Views(fn, map[ssa.Value]bool{fn.Params[i]: true}, z.t, false)
+			atRet, un := z.zeroFlow(fn, vw)
+			all := len(atRet) > 0
+			for _, ok := range atRet {
+				if !ok {
+					all = false
+				}
+			}
+			switch {
+			case all:
+				res = 1
+			case len(un) > 0:
+				res = 3
+			}
+		}
+	}
+	z.zp[key] = res
+	return res
+}
+
+// cleanResults: every slice fn returns is fresh memory or recycled memory that
+// was zeroed over its whole length.
+func (z *c08Zero) cleanResults(fn *ssa.Function) *c08ZeroVerdict {
+	fn = origin(fn)
+	if v, ok := z.clean[fn]; ok {
+		if v == nil {
+			return &c08ZeroVerdict{status: c08Unknown, unknown: []string{"recursive helper " + FuncName(z.p, fn)}}
+		}
+		return v
+	}
+	z.clean[fn] = nil
+	p := z.p
+	v := &c08ZeroVerdict{}
+	roots := map[ssa.Value]bool{}
+	cleanCalls := map[ssa.Value]bool{}
+	allInstrs(fn, func(in ssa.Instruction) {
+		call, ok := in.(*ssa.Call)
+		if !ok {
+			return
+		}
+		if callIs(call, "sync", "Pool", "Get") {
+			roots[call] = true
+			return
+		}
+		cal := staticCallee(call)
+		if cal == nil || !p.funcSet[cal] || z.t.Sum[origin(cal)] == nil {
+			return
+		}
+		pooled := false
+		for _, ls := range z.t.Sum[origin(cal)].Ret {
+			for l := range ls {
+				if strings.HasPrefix(l, "pool:") {
+					pooled = true
+				}
+			}
+		}
+		if !pooled {
+			return
+		}
+		cv := z.cleanResults(cal)
+		switch cv.status {
+		case c08Clean:
+			cleanCalls[call] = true
+		case c08Unknown:
+			v.unknown = append(v.unknown, cv.unknown...)
+			roots[call] = true
+		default:
+			roots[call] = true // the helper hands out recycled memory as it is: this function must zero it
+		}
+	})
+	v.roots = len(roots)
+	if len(roots) > 1 {
+		v.unknown = append(v.unknown, "origin of the recycled memory: "+FuncName(p, fn)+" obtains several recycled values; the single zeroing fact does not distinguish them")
+	}
+	vw := c08Views(fn, roots, z.t, false)
+	atRet, un := z.zeroFlow(fn, vw)
+	v.unknown = append(v.unknown, un...)
+	var fresh func(x ssa.Value, depth int) bool
+	fresh = func(x ssa.Value, depth int) bool {
+		if depth > 8 {
+			return false
+		}
+		switch y := x.(type) {
+		case *ssa.MakeSlice:
+			return true
+		case *ssa.Const:
+			return y.Value == nil
+		case *ssa.Alloc:
+			return true
+		case *ssa.Slice:
+			return fresh(y.X, depth+1)
+		case *ssa.ChangeType:
+			return fresh(y.X, depth+1)
+		case *ssa.Convert:
+			return true // string <-> []byte conversions copy
+		case *ssa.Phi:
+			for _, ed := range y.Edges {
+				if !vw.alias[ed] && !fresh(ed, depth+1) {
+					return false
+				}
+			}
+			return true
+		case *ssa.Call:
+			if cleanCalls[y] {
+				return true
+			}
+			if builtinName(y) == "append" && len(y.Call.Args) > 0 {
+				return fresh(y.Call.Args[0], depth+1)
+			}
+			if cal := staticCallee(y); cal != nil && p.funcSet[cal] && depth < 4 {
+				cv := z.cleanResults(cal)
+				return cv.status == c08Clean
+			}
+			if k := extKey(calleeObj(y)); k == "bytes.Clone" || k == "slices.Clone" || k == "bytes.Repeat" {
+				return true
+			}
+		}
+		return false
+	}
+	allInstrs(fn, func(in ssa.Instruction) {
+		ret, ok := in.(*ssa.Return)
+		if !ok {
+			return
+		}
+		zeroed, reachable := atRet[ret]
+		if !reachable {
+			return
+		}
+		v.nret++
+		for j, res := range ret.Results {
+			switch res.Type().Underlying().(type) {
+			case *types.Slice, *types.Interface, *types.Pointer:
+			default:
+				continue
+			}
+			if isErrorType(res.Type()) {
+				continue
+			}
+			cands := []ssa.Value{res}
+			if !vw.alias[res] {
+				cands = unspill(res)
+			}
+			for _, x := range cands {
+				switch {
+				case vw.alias[x]:
+					if !zeroed {
+						v.dirty = append(v.dirty, fmt.Sprintf("%s can return (result %d at %s) a recycled slice that was not zeroed over its whole length on every path: the previous user's bytes become visible to the next caller", FuncName(p, fn), j, p.Pos(ret.Pos())))
+					}
+				case fresh(x, 0):
+				default:
+					v.unknown = append(v.unknown, fmt.Sprintf("origin of result %d at %s is not recognised as fresh memory", j, p.Pos(ret.Pos())))
+				}
+			}
+		}
+	})
+	sort.Strings(v.dirty)
+	sort.Strings(v.unknown)
+	switch {
+	case len(v.dirty) == 0 && len(v.unknown) == 0:
+		v.status = c08Clean
+	case len(v.dirty) > 0 && len(v.unknown) == 0:
+		v.status = c08Dirty
+	case len(v.dirty) == 0:
+		// nothing dirty was found; unassessed writes after/around a proven zeroing do not matter for cleanliness
+		onlyWrites := true
+		for _, u := range v.unknown {
+			if strings.HasPrefix(u, "origin of") || strings.HasPrefix(u, "recursive") {
+				onlyWrites = false
+			}
+		}
+		if onlyWrites {
+			v.status = c08Clean
+		} else {
+			v.status = c08Unknown
+		}
+	default:
+		v.status = c08Unknown
+	}
+	z.clean[fn] = v
+	return v
+}
+
+// c08PutKeepsLength: what fn hands to sync.Pool.Put (directly or through
+// helpers) for its slice parameter i is the slice at the length the caller
+// left it at. 0 ok, 1 positively cut, 2 not decided.
+func (z *c08Zero) putKeepsLength(fn *ssa.Function, i int, depth int, why *[]string) int {
+	fn = origin(fn)
+	p := z.p
+	if depth > 4 || i >= len(fn.Params) {
+		*why = append(*why, "helper chain too deep below "+FuncName(p, fn))
+		return 2
+	}
+	vw := c08Views(fn, map[ssa.Value]bool{fn.Params[i]: true}, z.t, true)
+	res := 0
+	worse := func(x int) {
+		if x == 1 || (x == 2 && res == 0) {
+			res = x
+		}
+	}
+	allInstrs(fn, func(in ssa.Instruction) {
+		ci, ok := in.(ssa.CallInstruction)
+		if !ok {
+			return
+		}
+		cc := ci.Common()
+		where := p.Pos(instrPos(in))
+		if callIs(ci, "sync", "Pool", "Put") && len(cc.Args) > 1 {
+			a := cc.Args[1]
+			if !vw.alias[a] || vw.full[a] {
+				return
+			}
+			// which cut?
+			cut := a
+			for {
+				if mi, ok := cut.(*ssa.MakeInterface); ok {
+					cut = mi.X
+					continue
+				}
+				if ct, ok := cut.(*ssa.ChangeType); ok {
+					cut = ct.X
+					continue
+				}
+				break
+			}
+			if sl, ok := cut.(*ssa.Slice); ok && sl.High != nil && vw.full[sl.X] {
+				if _, isConst := sl.High.(*ssa.Const); isConst {
+					*why = append(*why, "Put stores a re-sliced view of the caller's slice (cut to a constant length at "+where+", not the slice at the length its user left it at) while Get only zeroes len(buf) bytes of what it recycles: bytes written by the previous user beyond the stored length are handed to the next caller as soon as it grows the slice within its capacity")
+					worse(1)
+					return
+				}
+			}
+			*why = append(*why, "Put stores a view of the caller's slice whose length is not recognised as the caller's length, at "+where)
+			worse(2)
+			return
+		}
+		cal := staticCallee(ci)
+		if cal == nil || !p.funcSet[cal] || cc.IsInvoke() {
+			return
+		}
+		for k, a := range cc.Args {
+			if !vw.alias[a] {
+				continue
+			}
+			sum := z.t.Sum[origin(cal)]
+			if sum == nil || len(sum.Releases[fmt.Sprintf("p%d", k)]) == 0 {
+				continue // the helper does not give it to a pool
+			}
+			if !vw.full[a] {
+				*why = append(*why, "a cut view of the caller's slice is handed to "+FuncName(p, cal)+", which gives it to the pool, at "+where)
+				worse(2)
+				continue
+			}
+			worse(z.putKeepsLength(cal, k, depth+1, why))
+		}
+	})
+	return res
+}
+
+func c08B3(p *Prog, r *Report, t *TaintEngine) {
+	z := &c08Zero{p: p, t: t, clean: map[*ssa.Function]*c08ZeroVerdict{}, zp: map[string]int{}}
+	get := p.Func("byteslicepool", "ByteSlicePool.Get")
+	put := p.Func("byteslicepool", "ByteSlicePool.Put")
+	construct := "byteslicepool.ByteSlicePool.Get"
+	v := z.cleanResults(get)
+	if v.nret == 0 {
+		r.Undecide("%s has no reachable return", construct)
+		return
+	}
+	// the zeroing covers len(buf): sound only if Put stores the slice with the length its user left it at
+	var why []string
+	putRes := 0
+	nSlice := 0
+	for i, pa := range put.Params {
+		if _, isSlice := pa.Type().Underlying().(*types.Slice); isSlice {
+			nSlice++
+			if x := z.putKeepsLength(put, i, 0, &why); x == 1 || (x == 2 && putRes == 0) {
+				putRes = x
+			}
+		}
+	}
+	if nSlice == 0 {
+		r.Undecide("byteslicepool.ByteSlicePool.Put has no slice parameter: the pool's element representation changed, the zeroing rule does not apply as written")
+		return
+	}
+	sort.Strings(why)
+	switch {
+	case v.status == c08Dirty:
+		r.Violation("C08.B3-zeroed", construct, p.Pos(get.Pos()), v.dirty[0], v.dirty...)
+	case putRes == 1:
+		r.Violation("C08.B3-zeroed", construct, p.Pos(get.Pos()), why[0], why...)
+	case v.status == c08Unknown:
+		r.Undecide("%s: whether recycled slices are zeroed is not decided: %s", construct, strings.Join(append(v.dirty, v.unknown...), "; "))
+	case putRes == 2:
+		r.Undecide("byteslicepool.ByteSlicePool.Put: %s", strings.Join(why, "; "))
+	default:
+		r.OK("C08.B3-zeroed", construct, p.Pos(get.Pos()), "recycled slices are zeroed over their whole length on every path before being handed out; otherwise fresh memory; Put keeps the caller's length")
+	}
 }
